@@ -48,7 +48,7 @@ def gen_script(rnd, long=False):
         if c < 0.55 or long:
             kind = rnd.choice(S.KINDS)
             pol = rnd.choice(["idem", "idem", "nonidem", "conn", "short", "long"] * 3
-                             + ["zero", "neg"])
+                             + ["zero", "neg", "hour"])
             mode = rnd.choice(["inline", "inline", "t1", "t2", "t3"])
             ops.append(["send", kind, pol, mode])
             if long and i % 97 == 50:
